@@ -297,6 +297,8 @@ class StatusLoadMode(vlib.Mode):
                 return []
             if l.startswith("pollstatus ") and o.startswith("polls="):
                 d = dict(x.split("=", 1) for x in o.split(" "))
+                if int(d["polls"]) >= 5 and int(d.get("noanswer", 0)) == int(d["polls"]):
+                    fails.append(("status-not-answered-under-traffic", f"none of {d['polls']} /status requests made while n{l.split(' ')[1][1:]} was streaming was answered"))
                 if int(d["incomplete"]) > 0:
                     who = vlib.unhx(d["first"]).decode("utf-8", "replace") if d["first"] not in ("-", "no-answer") else d["first"]
                     fails.append(("joined-connection-missing-from-status", f"{d['incomplete']} of {d['polls']} /status answers taken while n{l.split(' ')[1][1:]} was "
